@@ -26,6 +26,7 @@ def restore():
     sh('git checkout -- .', cwd=REPO)
     if os.path.exists(DEMO):
         os.remove(DEMO)
+    sh('git clean -fdq derive-ex-tests', cwd=REPO)     # trybuild-based demos leave case directories behind
 
 
 def main():
